@@ -172,7 +172,7 @@ def run(ctx: core.Ctx) -> int:
                 g.append(c)
         pats.append(g)
     cases = [{"id": i + 1, "pattern": p} for i, p in enumerate(pats)]
-    bound = core.pmap(bind_case, cases)
+    bound = ctx.pmap(bind_case, cases)
     usable = [b for b in bound if b["impl"] is not None]
     ctx.notes["patterns"] = len(cases)
     ctx.notes["binding_failures"] = len([b for b in bound if b["impl"] is None and not str(b.get("error", "")).startswith("refused")])
@@ -219,7 +219,7 @@ def run(ctx: core.Ctx) -> int:
         for j in range(3):
             pcases.append({"tid": len(pcases) + 1, "paragraphs": [{"patterns": ["*"], "cop": ["2020 A"], "lic": "MIT"}], "has_dep5": True,
                            "fault": fault, "seed": j, "label": json.dumps({"fault": fault})})
-    events = core.pmap(run_project, pcases, chunksize=8)
+    events = ctx.pmap(run_project, pcases, chunksize=8)
     for ev in events[:: max(1, len(events) // 3)][:3]:
         ctx.samples.append({"case": json.loads(ev["label"]), "exit": ev["exit"], "fsev": ev["fsev"], "after": ev["after"][:3]})
     ctx.samples.append({"pattern_cases": [{"dep5": "".join(b["pattern"]), "converted": b["converted"]} for b in usable[:: max(1, len(usable) // 6)][:6]]})
@@ -244,4 +244,4 @@ def run(ctx: core.Ctx) -> int:
 
 
 def replay(ctx: core.Ctx, path: str) -> int:
-    raise core.MachineryError("replay for C17 re-runs the case list; use the check with the same VERIF_SEED")
+    return core.generic_replay(ctx, path)
